@@ -21,6 +21,7 @@ import sys as _sys
 _sys.path.insert(0, _os.path.dirname(_os.path.dirname(_os.path.abspath(__file__))))
 from vlib import frame as _frame
 FRAME_CHECK = _os.environ.get('SYMX_FRAME_CHECK', '1') == '1'
+FRAME_STATS = {"paths": 0, "diffs": []}   # per process; collected by vlib.par after each job
 
 
 class Watchdog:
@@ -164,7 +165,10 @@ class Engine:
             if FRAME_CHECK:
                 # frame condition (history independence): the call left the package's module-level mutable state unchanged
                 self.frame_paths = getattr(self, "frame_paths", 0) + 1
+                FRAME_STATS["paths"] += 1
                 d = _frame.diff(before, _frame.snapshot())
+                if d and len(FRAME_STATS["diffs"]) < 5:
+                    FRAME_STATS["diffs"].append([list(x) for x in d[:3]])
                 if d:
                     self.frame_diffs = getattr(self, "frame_diffs", [])
                     if len(self.frame_diffs) < 5:
